@@ -21,15 +21,20 @@ theorem C08_resolve_perm (ix ix' : List Def) (imp : Path → String → Bool) (f
     (hp : ix.Perm ix') (hu : Uniq ix imp n) : resolve ix imp f n = resolve ix' imp f n :=
   resolve_perm hp imp f n hu
 
-/-- definitions on distinct (file, line) pairs: the definition found at a line is order independent -/
-theorem C08_defAtLine_perm (ix ix' : List Def) (f : Path) (line : Nat) (hp : ix.Perm ix')
-    (hu : ∀ a ∈ ix, ∀ b ∈ ix, a.file = b.file → a.line = b.line → a = b) :
-    defAtLine ix f line = defAtLine ix' f line := by
-  unfold defAtLine
-  apply find?_perm_unique _ hp
+/-- definitions of one name in one file with disjoint line ranges: the fixture a usage of its own
+    name belongs to is order independent -/
+theorem C08_ownDefAt_perm (ix ix' : List Def) (f : Path) (line : Nat) (n : String) (hp : ix.Perm ix')
+    (hu : ∀ a ∈ ix, ∀ b ∈ ix, a.name = n → b.name = n → a.file = b.file →
+      a.line ≤ line → line ≤ a.endLine → b.line ≤ line → line ≤ b.endLine → a = b) :
+    ownDefAt ix f line n = ownDefAt ix' f line n := by
+  unfold ownDefAt defsOf
+  apply find?_perm_unique _ (hp.filter _)
   intro a ha b hb pa pb
-  simp only [Bool.and_eq_true, beq_iff_eq] at pa pb
-  exact hu a ha b hb (pa.1.trans pb.1.symm) (pa.2.trans pb.2.symm)
+  simp only [Bool.and_eq_true, beq_iff_eq, decide_eq_true_eq] at pa pb
+  have ma := List.mem_filter.mp ha
+  have mb := List.mem_filter.mp hb
+  exact hu a ma.1 b mb.1 (by simpa using ma.2) (by simpa using mb.2) (pa.1.1.trans pb.1.1.symm)
+    pa.1.2 pa.2 pb.1.2 pb.2
 
 /-- the same-file rule is order independent without any hypothesis when lines are distinct:
     the LAST definition in the file wins whatever the registration order. -/
